@@ -283,7 +283,7 @@ func spelling(r *mrand.Rand, b string) string {
 }
 
 var helloClasses = []string{"ecdsa", "ecdsa", "ecdsa", "ecdsa", "ecdsa-min", "both", "both", "token"}
-var rsaClasses = []string{"rsa-suites", "rsa-sigalgs", "rsa-curves"}
+var rsaClasses = []string{"rsa-suites", "rsa-sigalgs", "rsa-curves", "rsa-curves-nosig"}
 
 var lifetimes = []time.Duration{0, 1, 7, 29, 30, 400 * time.Millisecond, time.Second, 2 * time.Second, 5 * time.Second, 30 * time.Second, 90 * time.Second,
 	10 * time.Minute, time.Hour, 6 * time.Hour, day, 6 * day, 47 * day, 90 * day, 90 * day, 398 * day, 3 * 365 * day, 10 * 365 * day}
@@ -1903,6 +1903,9 @@ func buildHello(h Hello) *tls.ClientHelloInfo {
 		ci.CipherSuites, ci.SignatureSchemes, ci.SupportedCurves = both, rsaSchemes, []tls.CurveID{tls.X25519, tls.CurveP256}
 	case "rsa-curves":
 		ci.CipherSuites, ci.SignatureSchemes, ci.SupportedCurves = both, bothSchemes, []tls.CurveID{tls.X25519, tls.CurveP384}
+	case "rsa-curves-nosig":
+		// no signature_algorithms extension, ECDSA suites on offer, but no P-256
+		ci.CipherSuites, ci.SupportedCurves = both, []tls.CurveID{tls.CurveP384, tls.CurveP521}
 	case "token":
 		ci.CipherSuites, ci.SupportedProtos = both, []string{"acme-tls/1"}
 	}
@@ -2002,9 +2005,9 @@ func (r *run) judge(call *callRec, cert *tls.Certificate, err error) {
 		case "rsa-suites", "rsa-sigalgs":
 			c.Violate(Prop, "cert-key-type", "%s returned an ECDSA certificate to a client that cannot use ECDSA (%s)", at, h.Class)
 			return
-		case "rsa-curves":
+		case "rsa-curves", "rsa-curves-nosig":
 			if pub.Curve != elliptic.P384() {
-				c.Violate(Prop, "cert-key-type", "%s returned an ECDSA certificate on %s to a client whose supported curves are X25519 and P-384", at, pub.Curve.Params().Name)
+				c.Violate(Prop, "cert-key-type", "%s returned an ECDSA certificate on %s to a client whose supported curves do not include it (%s)", at, pub.Curve.Params().Name, h.Class)
 				return
 			}
 		}
